@@ -4,7 +4,7 @@ CHECK = {
     "harness": "c03_lambert.cpp",
     "srcs": GEODESY,
     "flavours": ["asan"],
-    "quick": {"shards": 4, "timeout": 600},
+    "quick": {"shards": 8, "timeout": 600},
     "thorough": {"shards": 16, "timeout": 3600},
     "required_categories": ["secant_north", "secant_south", "tangent_north", "tangent_south", "named_zone",
                             "zone_Lambert93", "zone_CC42", "zone_CC50", "zone_LambertI", "zone_LambertIV",
